@@ -246,6 +246,8 @@ class Exporter:
                     continue  # this spine is not exported
                 node_signatures = {}
                 for signature_kind, signature_node in node.last_signature_nodes.nodes.items():
+                    if signature_node.token.category not in options.token_categories:
+                        continue  # signatures of a category that is filtered out are not re-stated either
                     if not self.is_signature_cancelled(signature_node, node, from_stage, to_stage):
                         node_signatures[signature_kind] = self.export_token(signature_node, options)
                         if signature_kind not in signature_kinds:
